@@ -32,6 +32,8 @@ MC_CONFIGS = {
     "quick": [dict(N=2, K=2, V=2), dict(N=3, K=2, V=2), dict(N=4, K=2, V=1), dict(N=3, K=3, V=1)],
     "thorough": [dict(N=2, K=2, V=2), dict(N=3, K=2, V=2), dict(N=4, K=2, V=2), dict(N=5, K=2, V=1), dict(N=3, K=3, V=1)],
 }
+# (eu, ew): u = U * 2^-eu, w = W * 2^-ew with the scale far from 1 (every entry of w, or of u, far below any absolute threshold)
+SHIFTS = [(-20, 40), (0, 40), (-15, 45), (-30, 30), (20, -40), (18, 0), (0, -30), (30, -30), (-25, 50), (12, 12)]
 MC_INV = ["ClosedFormsEqualBruteForce", "KappaCountsPairs", "WSymmetric"]
 EM_INV = ["BestIsMax", "BestIsEarliest", "Counts", "NeverBelowFirst", "IterationBound", "NoStuck"]
 
@@ -114,6 +116,25 @@ def loglik_def(u, w, edges, weights, D):
     return tot
 
 
+def cmb(n, k):
+    return math.comb(n, k) if 0 <= k <= n else 0
+
+
+def exact_stats(U, W, N, ds):
+    """the definitions (sums over ALL hyperedges of the sizes ds of Lambda / kappa) by counting, as exact Fractions over integer
+    matrices: a pair {i, j} lies in C(N-2, d-2) hyperedges of size d, a node and a pair not containing it in C(N-3, d-3).
+    Cross-checked against the brute force of HyMMSBM.tla (oracle mode) on every small case; used by itself where brute force
+    is out of reach (many nodes).  -> (per-node expected degrees, average degree, {d: expected number of hyperedges})"""
+    K = len(W)
+    G = [[sum(U[i][a] * W[a][b] * U[j][b] for a in range(K) for b in range(K)) for j in range(N)] for i in range(N)]
+    R = [sum(G[i][j] for j in range(N) if j != i) for i in range(N)]
+    S = sum(G[i][j] for i in range(N) for j in range(i + 1, N))
+    count = {d: Fraction(cmb(N - 2, d - 2) * S, kappa_def(N, d)) for d in ds}
+    deg = [sum((Fraction(cmb(N - 2, d - 2) * R[i] + cmb(N - 3, d - 3) * (S - R[i]), kappa_def(N, d)) for d in ds), Fraction(0))
+           for i in range(N)]
+    return deg, sum(deg, Fraction(0)) / N, count
+
+
 # ---------------------------------------------------------------------------------------------
 # 2. closed forms on real objects
 def frac(x, scale=1):
@@ -159,8 +180,11 @@ def closed_form_case(rng, N, K, tier, idx):
     for a in range(K):
         for b in range(a, K):
             W[a][b] = W[b][a] = 0 if (diag and a != b) else rng.randint(0, 3)
-    su, sw = rng.choice([1, 1, 2, 4]), rng.choice([1, 1, 2, 4])
-    scale = su * su * sw
+    # the model is built with u = U * 2^-eu and w = W * 2^-ew: every quantity linear in lambda is 2^-(2 eu + ew) times its
+    # value for the integer matrices, EXACTLY (powers of two).  One case in four moves the scale far away from 1, in u, in w,
+    # or from one into the other (the same model, e.g. u * 2^20 with w * 2^-40): no absolute threshold may matter
+    eu, ew = rng.choice(SHIFTS) if rng.random() < 0.25 else (rng.choice([0, 0, 1, 2]), rng.choice([0, 0, 1, 2]))
+    scale = 2.0 ** (2 * eu + ew)
     fam = FAMS[idx % 4]
     labels = LABEL_FAMILIES[fam](N)
     edges = []
@@ -172,12 +196,12 @@ def closed_form_case(rng, N, K, tier, idx):
     h = build_hypergraph(labels, edges, weights, rng)
     inc, row2id = rows_of(h, labels)
     id2row = {i: r for r, i in enumerate(row2id)}
-    u = np.array([U[row2id[r] - 1] for r in range(N)], dtype=float) / su
-    w = np.array(W, dtype=float) / sw
-    int_dtype = rng.random() < 0.15 and su == 1 and sw == 1
+    u = np.array([U[row2id[r] - 1] for r in range(N)], dtype=float) * 2.0 ** -eu
+    w = np.array(W, dtype=float) * 2.0 ** -ew
+    int_dtype = rng.random() < 0.15 and eu == 0 and ew == 0
     if int_dtype:
         u, w = u.astype(int), w.astype(int)
-    c = {"N": N, "D": D, "u": U, "w": W, "su": su, "sw": sw}
+    c = {"N": N, "D": D, "u": U, "w": W, "eu": eu, "ew": ew}
     raw, unclean, raised = {}, [], []
 
     def fr(name, x, s=scale):
@@ -253,7 +277,7 @@ def closed_form_case(rng, N, K, tier, idx):
         except Exception as ex:
             raised.append(("C", repr(ex)))
         c["C"] = cc
-    descr = {"N": N, "K": K, "D": D, "u_int": U, "w_int": W, "u_divided_by": su, "w_divided_by": sw, "labels": labels,
+    descr = {"N": N, "K": K, "D": D, "u_int": U, "w_int": W, "u_times_2_to_the": -eu, "w_times_2_to_the": -ew, "labels": labels,
              "edges": edges, "weights": weights, "int_dtype": int_dtype}
     return c, raw, unclean, raised, descr
 
@@ -297,8 +321,8 @@ def validate_closed_forms(res, tier, rng):
                      "degree_sequence": "expected_degree_per_node", "dimension_sequence": "dimension_sequence",
                      "log_kappa": "kappa", "C": "C_constant"}
             res.reject({"clauses": sorted({names[r[0].split("(")[0]] for r in raised}), "raised": True, "two_nodes": d["N"] == 2},
-                       "HyMMSBM call(s) raised on valid parameters (N=%d, D=%d, u=%s/%d, w=%s/%d): %s"
-                       % (d["N"], d["D"], d["u_int"], d["u_divided_by"], d["w_int"], d["w_divided_by"], sorted(set(raised))[:3]), {"case": d})
+                       "HyMMSBM call(s) raised on valid parameters (N=%d, D=%d, u=%s*2^%d, w=%s*2^%d): %s"
+                       % (d["N"], d["D"], d["u_int"], d["u_times_2_to_the"], d["w_int"], d["w_times_2_to_the"], sorted(set(raised))[:3]), {"case": d})
     # oracle mode: exact rationals from TLC; raw floats and the Python transcription compared in Python
     sel = list(range(len(cases))) if tier == "thorough" else list(range(0, len(cases), 2))
     ocases = []
@@ -315,7 +339,7 @@ def validate_closed_forms(res, tier, rng):
     drift = 0
     for idx, oc, o in zip(sel, ocases, outs):
         c, raw = cases[idx], raws[idx]
-        s = c["su"] ** 2 * c["sw"]
+        s = 2.0 ** (2 * c["eu"] + c["ew"])
         # (a) the transcription used for the likelihood agrees with TLC on these integer inputs (else: machinery failure)
         G = np.array(c["u"], dtype=float) @ np.array(c["w"], dtype=float) @ np.array(c["u"], dtype=float).T
         for e, l in zip(oc["edges"][:oc["nall"]], o["lam"]):
@@ -324,6 +348,10 @@ def validate_closed_forms(res, tier, rng):
         for d, k in zip(range(2, c["D"] + 1), o["kappa"]):
             if kappa_def(c["N"], d) != k:
                 drift += 1
+        xdeg, xavg, xcount = exact_stats(c["u"], c["w"], c["N"], range(2, c["D"] + 1))
+        if ([Fraction(*x) for x in o["deg"]] != xdeg or Fraction(*o["avg"]) != xavg
+                or [Fraction(*x) for x in o["count"]] != [xcount[d] for d in range(2, c["D"] + 1)]):
+            drift += 1
         # (b) the implementation's floats against the exact values
         bad = set()
         if "pp" in raw:
@@ -348,12 +376,13 @@ def validate_closed_forms(res, tier, rng):
         if bad:
             rejected.setdefault(idx, set()).update(bad)
     if drift:
-        raise tlc.TLCError("the Python transcription of Lambda / kappa disagrees with HyMMSBM.tla on %d integer inputs" % drift)
+        raise tlc.TLCError("the Python transcription of Lambda / kappa / the counting form of the expected statistics disagrees "
+                           "with HyMMSBM.tla on %d integer inputs" % drift)
     for idx, failed in sorted(rejected.items()):
         d = descr[idx]
         res.reject({"clauses": sorted(failed), "raised": False, "two_nodes": d["N"] == 2},
-                   "HyMMSBM value(s) %s differ from the definition (sum over all possible hyperedges) for N=%d K=%d D=%d u=%s/%d w=%s/%d"
-                   % (",".join(sorted(failed)), d["N"], d["K"], d["D"], d["u_int"], d["u_divided_by"], d["w_int"], d["w_divided_by"]),
+                   "HyMMSBM value(s) %s differ from the definition (sum over all possible hyperedges) for N=%d K=%d D=%d u=%s*2^%d w=%s*2^%d"
+                   % (",".join(sorted(failed)), d["N"], d["K"], d["D"], d["u_int"], d["u_times_2_to_the"], d["w_int"], d["w_times_2_to_the"]),
                    {"case": d, "logged": cases[idx]})
     res.cov(traces_validated_against_impl=len(cases), validator_states=v["states"], oracle_cases=len(ocases),
             closed_form_cases_rejected=len(rejected), calls_raised=raised_cases, validator_selftests=1,
